@@ -396,3 +396,13 @@ PROPS['C08']['assumptions'] = COMMON + [T_LOOP, T_EVENT, D_ARGSORT, D_ARGMIN, D_
 PROPS['C08']['explanation'] = ('E1: every link of the chain convolve_model_dir (both formats) -> Filter.rebin -> Models.fit (constrained optimum, chi^2) -> FitInfo.sort (ranking) -> keep -> fit() (one record per '
                                'source) -> filter_table -> write_parameters (which value is written where) is verified again under this property, so a change that breaks a link fails here too. '
                                'E2: planted (model, A_V, scale) recovered end-to-end through real files, both formats, 1/3 apertures, permuted tables, mixed wavelength grids.')
+
+
+# ---- round 3 of seeded changes: functions on a property's path that were not re-verified under it --------------
+# C03: the data-file path (flags and values as parsed from a line); C04: "the distance scaling implied by the reported scale" is the
+# scale axis the package readers build (log10 of the trial distance in kpc whatever unit the range is given in)
+PROPS['C03']['e1'] = PROPS['C03']['e1'] + [SRC + 'from_ascii']
+PROPS['C04']['e1'] = PROPS['C04']['e1'] + [RV1, RV2]
+PROPS['C04']['assumptions'] = PROPS['C04']['assumptions'] + [D_ARGMIN, 'A-UNIT: unit model of sedvc/units.py']
+PROPS['C04']['explanation'] += (' Models._read_version_1/2: the scale axis is log10 of the trial distance in kpc for a range given in kpc or in pc. E2 also: models with infinite chi^2 '
+                                '(rejected at every distance) placed before finite ones.')
